@@ -147,6 +147,19 @@ func checkSignerAmountIsIndexedInputValue(c *Ctx, rule string) {
 				continue
 			}
 			h := call.Call.StaticCallee()
+			if h == nil {
+				// the helper may be picked first and called through a function value
+				hs := p.Callees(call)
+				for _, g := range hs {
+					if fnPkgPath(g) != fnPkgPath(top) || !strings.HasPrefix(g.Name(), "spend") {
+						hs = nil
+						break
+					}
+				}
+				if len(hs) > 0 {
+					h = hs[0]
+				}
+			}
 			if h == nil || fnPkgPath(h) != fnPkgPath(top) || !strings.HasPrefix(h.Name(), "spend") {
 				continue
 			}
@@ -161,13 +174,18 @@ func checkSignerAmountIsIndexedInputValue(c *Ctx, rule string) {
 					}
 				}
 			}
-			if ai < 0 || ii < 0 || ai >= len(call.Call.Args) || ii >= len(call.Call.Args) {
+			if ai < 0 || ai >= len(call.Call.Args) {
 				continue
 			}
 			n++
-			amt, idx := stripConv(call.Call.Args[ai]), call.Call.Args[ii]
+			amt := stripConv(call.Call.Args[ai])
+			// the input's index may travel inside a small struct: then only the map rule below applies
+			var idx ssa.Value
+			if ii >= 0 && ii < len(call.Call.Args) {
+				idx = call.Call.Args[ii]
+			}
 			bad := ""
-			if ld, isLd := amt.(*ssa.UnOp); isLd && ld.Op == token.MUL {
+			if ld, isLd := amt.(*ssa.UnOp); isLd && ld.Op == token.MUL && idx != nil {
 				if ia, isIA := ld.X.(*ssa.IndexAddr); isIA {
 					if !sameValue(ia.Index, idx) {
 						bad = "indexed by " + describeValue(ia.Index) + ", the input by " + describeValue(idx)
@@ -185,7 +203,7 @@ func checkSignerAmountIsIndexedInputValue(c *Ctx, rule string) {
 				fnName(fn)+" hands "+h.Name()+" an amount that is not the value recorded for this input ("+bad+"): the signature hash commits to the amount, two coins paying one script with different amounts get each other's — the signature does not verify")
 		}
 	}
-	c.Floor(rule, "amounts handed to the witness spend helpers", n, 3)
+	c.Floor(rule, "amounts handed to the witness spend helpers", n, 1)
 }
 
 // checkLatestRecordWalksPastSeek: a transaction hash may be recorded in several blocks (the keys are hash‖height‖block
@@ -207,7 +225,7 @@ func checkLatestRecordWalksPastSeek(c *Ctx, rule string) {
 				continue
 			}
 			n++
-			sl := &Slicer{P: p, KeepExtract: true, ThroughReturns: func(h *ssa.Function) bool { return fnPkgPath(h) == fnPkgPath(fn) }}
+			sl := &Slicer{P: p, ThroughReturns: func(h *ssa.Function) bool { return fnPkgPath(h) == fnPkgPath(fn) }}
 			for _, o := range sl.Origins(effectiveResult(r, 0)) {
 				var call *ssa.Call
 				if ex, isEx := o.(*ssa.Extract); isEx {
